@@ -9,8 +9,10 @@
 // Float / complex part: float.go (spec/FloatArith*.tla).  Witness programs: witness.go.
 //
 // VERIF_C06_ONLY=int|float|witness restricts a run to one part (development and
-// sensitivity runs); VERIF_C06_CORRUPT=float corrupts one float prediction (the
-// binding is not vacuous).
+// sensitivity runs); VERIF_C06_CORRUPT=float corrupts one float prediction: the
+// reference toolchain then disagrees with the "specification" and the case is counted in
+// spec_guard_discards; with VERIF_C06_CORRUPT_NOGUARD=1 in addition it is judged all the
+// same and the check fails (the binding is not vacuous).
 package c06
 
 import (
@@ -332,7 +334,7 @@ func classify(r *rec) []string {
 }
 
 const intRule = "integer part: TLC enumerates every (class, type, operator, shape) unit x operand rows of BitsScen.tla (boundary pool + VERIF_SEED operands); a case is one expression with concrete operands; distinct = distinct expression trees; non-trivial = every case (each evaluates at least one fixed-width operator)"
-const floatRule = "float/complex part: TLC enumerates every (class, type, operator) unit x operand rows of FloatArithScen.tla (operand shapes variable / typed constant / both constant / untyped constant / nested / compound assignment; boundary pools per type + VERIF_SEED dyadics) with the IEEE 754 bit pattern FloatArith.tla defines; every expression is rendered with predeclared and with defined types; expressions for which Go defines no unique result are emitted as excluded and counted in not_judged_go_leaves_result_open; distinct = distinct expression trees"
+const floatRule = "float/complex part: TLC enumerates every (class, type, operator) unit x operand rows of FloatArithScen.tla (operand shapes variable / typed constant / both constant / untyped constant / nested / compound assignment; boundary pools per type + VERIF_SEED dyadics) with the IEEE 754 bit pattern FloatArith.tla defines; every expression is rendered with predeclared and with defined types; expressions for which Go defines no unique result are emitted as excluded and counted in float_expressions_not_judged_by_reason (also constant expressions that do not compile); distinct = distinct expression trees"
 
 // tlcWorkers limits the TLC worker threads of this check on a shared machine:
 // VERIF_TLC_WORKERS=<n> if set, else half of VERIF_WORKERS when that is set below the
